@@ -363,8 +363,14 @@ def _run(ctx):
         "deliveries are gap-free (entry i is only handed over after i-1 was taken): the receiver accepts a batch that "
         "starts ahead of the synced position and jumps over the gap (the continuity check in ApplyRaftReqs is commented "
         "out, isContinueCommit only logs) - the sender owns continuity, gaps are outside C19's quantifier",
-        "single-replica receiver: a proposal that ApplyRaftReqs has queued is committed; with several replicas a leader "
-        "change could drop one of two pipelined proposals of a batch and commit the later one, which this check cannot produce",
+        "the general corpus drives single-replica receivers (a proposal that ApplyRaftReqs has queued is committed). Receivers with "
+        "three replicas and leader transfers during pipelined batches are a thorough-tier stage whose verdict is limited to the "
+        "quiescent state after each round (all replicas equal; data = fold of the source prefix up to the synced position); it can "
+        "reproduce the open finding c19-pipelined-drop-on-leader-change, which the model shows too (MC_ZSync_pipelined, CancelPrefix). "
+        "Leader kill (instead of transfer) is not driven",
+        "remote snapshots: the success path (a usable checkpoint of the source's data as of entry i, fetched through the local copy "
+        "path) on both engines, the failing apply only on pebble (the memory engine does not check a checkpoint before restoring it); "
+        "one kind per receiver, because a failed snapshot blocks further ones for 5 minutes",
         "proposal failures are produced with an entry the receiver must refuse (raft timestamp different from the payload's), "
         "which ends the batch with an error exactly like a dropped proposal; real time-outs (4 s, a constant) are not forced",
         "the synced position is observed on a fully ready node (replay finished); while a restarted node replays its log "
